@@ -287,6 +287,7 @@ kf_dw_drq_tensorwise = _with_case(kfpred.dw_drq_tensorwise)
 kf_emb_int4_odd_width = _with_case(kfpred.emb_int4_odd_width)
 kf_bmm_const_lhs = _with_case(kfpred.bmm_const_lhs)
 kf_bmm_static_const_channelwise = _with_case(c07.kf_bmm_static_const_channelwise)
+kf_bias_int32_saturated = _with_case(c07.kf_bias_int32_saturated)
 
 
 def kf_addsub_output_scale(spec, violation):
